@@ -35,6 +35,8 @@ pub struct DirPlan {
     pub slow: usize,
     /// sends at these indices are abandoned after `cancel_ms` while the peer is not reading
     pub cancel_at: Vec<usize>,
+    /// messages at these indices are only enqueued (they go out with the next send, or with the flush at the end)
+    pub queued: Vec<usize>,
 }
 
 #[derive(Debug, Clone)]
@@ -64,11 +66,11 @@ pub enum MuxStep {
 }
 
 fn plan_to_json(p: &DirPlan) -> Value {
-    json!({"sizes": p.sizes, "slow": p.slow, "cancel_at": p.cancel_at})
+    json!({"sizes": p.sizes, "slow": p.slow, "cancel_at": p.cancel_at, "queued": p.queued})
 }
 fn plan_from_json(v: &Value) -> DirPlan {
     let arr = |x: &Value| x.as_array().map(|a| a.iter().map(|y| y.as_u64().unwrap() as usize).collect()).unwrap_or_default();
-    DirPlan { sizes: arr(&v["sizes"]), slow: v["slow"].as_u64().unwrap_or(0) as usize, cancel_at: arr(&v["cancel_at"]) }
+    DirPlan { sizes: arr(&v["sizes"]), slow: v["slow"].as_u64().unwrap_or(0) as usize, cancel_at: arr(&v["cancel_at"]), queued: arr(&v["queued"]) }
 }
 impl Scenario {
     pub fn to_json(&self) -> Value {
@@ -146,6 +148,11 @@ async fn sender<S: Socket>(
                     "cancelled"
                 }
             }
+        } else if plan.queued.contains(&seq) {
+            match w.enqueue_call(&call) {
+                Ok(()) => "ok",
+                Err(_) => "err",
+            }
         } else {
             match w.send_call(&call).await {
                 Ok(()) => "ok",
@@ -153,6 +160,9 @@ async fn sender<S: Socket>(
             }
         };
         out.push(SentRec { seq, len: *len, h, res });
+    }
+    if !plan.queued.is_empty() {
+        let _ = w.flush().await;
     }
     // (dropping the write half closes the stream only with tokio: the smol halves share the
     // socket, so the reader is told through `done` that nothing more will come)
@@ -632,10 +642,12 @@ pub fn gen_plain(r: &mut Rng, sid: String, runtime: &str, big: bool) -> Scenario
     let n = if big { r.range(1, 3) } else { r.range(1, 8) };
     let conns = (0..n)
         .map(|_| {
-            let mk = |r: &mut Rng| DirPlan {
-                sizes: (0..r.range(0, if big { 5 } else { 12 })).map(|_| rand_size(r, big)).collect(),
-                slow: if r.chance(1, 2) { 0 } else { r.range(1, 3) },
-                cancel_at: vec![],
+            let mk = |r: &mut Rng| {
+                let sizes: Vec<usize> = (0..r.range(0, if big { 5 } else { 12 })).map(|_| rand_size(r, big)).collect();
+                // in a third of the directions some messages are enqueued and leave with a later send (or the
+                // final flush): the sequence submitted must still be the sequence received
+                let queued: Vec<usize> = if r.chance(1, 3) { (0..sizes.len()).filter(|_| r.chance(1, 2)).collect() } else { vec![] };
+                DirPlan { sizes, slow: if r.chance(1, 2) { 0 } else { r.range(1, 3) }, cancel_at: vec![], queued }
             };
             (mk(r), mk(r))
         })
@@ -652,8 +664,8 @@ pub fn gen_cancel(r: &mut Rng, sid: String, runtime: &str) -> Scenario {
             let mut sizes: Vec<usize> = (0..nm).map(|_| r.range(0, 3000)).collect();
             let at = r.range(0, nm - 2);
             sizes[at] = r.range(400_000, 1_000_000); // cannot fit the socket buffer: the write is partial
-            let cs = DirPlan { sizes, slow: 0, cancel_at: vec![at] };
-            let sc = DirPlan { sizes: (0..r.range(0, 3)).map(|_| r.range(0, 500)).collect(), slow: 0, cancel_at: vec![] };
+            let cs = DirPlan { sizes, slow: 0, cancel_at: vec![at], queued: vec![] };
+            let sc = DirPlan { sizes: (0..r.range(0, 3)).map(|_| r.range(0, 500)).collect(), slow: 0, cancel_at: vec![], queued: vec![] };
             (cs, sc)
         })
         .collect();
@@ -666,13 +678,14 @@ pub fn gen_hangup(r: &mut Rng, sid: String, runtime: &str) -> Scenario {
     let n = r.range(1, 3);
     let conns = (0..n)
         .map(|_| {
-            let cs = DirPlan { sizes: (0..r.range(1, 4)).map(|_| r.range(0, 2000)).collect(), slow: 0, cancel_at: vec![] };
+            let cs = DirPlan { sizes: (0..r.range(1, 4)).map(|_| r.range(0, 2000)).collect(), slow: 0, cancel_at: vec![], queued: vec![] };
             // mostly small enough to sit in the kernel's buffer when the server closes; sometimes more
             let big = r.chance(1, 4);
             let sc = DirPlan {
                 sizes: (0..r.range(1, 8)).map(|_| if big { r.range(0, 150_000) } else { r.range(0, 6000) }).collect(),
                 slow: if r.chance(1, 2) { 0 } else { r.range(1, 3) },
                 cancel_at: vec![],
+                queued: vec![],
             };
             (cs, sc)
         })
